@@ -478,7 +478,8 @@ typename BasicSuffixSet<Alloc>::SuffixImpl *BasicSuffixSet<Alloc>::DoAdd(
   const char *s = name.data();
   std::copy(s, s + size, fmt::internal::make_ptr(name_copy, size));
   name_copy[size] = 0;
-  impl->name = name_copy;
+  /// The name can contain a NUL character (binary NL input), so pass the size.
+  impl->name = fmt::StringRef(name_copy, size);
   impl->num_values = num_values;
   impl->table = table;
   return impl;
